@@ -41,6 +41,8 @@ use cbor_event::{
     se::{Serialize, Serializer},
 };
 
+#[cfg(feature = "verif-hooks")]
+pub mod verif_hooks;
 mod builders;
 pub use builders::*;
 pub mod chain_core;
